@@ -1,6 +1,6 @@
 (* C12 — Each request is answered at most once, to the right requester.
    This file holds only the property theorems (each closed by [exact] of a lemma proved in
-   IdProofs / ReplyInv / ReplyStep / ReplyProps / ReplyRefine), non-vacuity examples and
+   IdProofs / ReplyInv / ReplyStep / ReplyProps / ReplyRefine / ConnProofs / ConnWait / ConnReserve), non-vacuity examples and
    Print Assumptions.
 
    Reading guide.
@@ -17,9 +17,19 @@
           a fresh context.  A request is identified by the number of the arm operation ([erq] of a
           log entry, [arm_at ops i] = the bytes armed by operation i).  [mark bs] sets the reply
           bit.  [all_wf ops]: ids handed to arm have the reply bit clear.  [reachable w]: w is
-          the result of some well-formed history on some fresh context. *)
+          the result of some well-formed history on some fresh context.
+   conn.  The mptio users of all this (ConnModel.v: mpt_connection_dispatch / streamWrapper /
+          replyConnection, the object of mpt_output_remote, mpt_stream_sync, with the patches
+          docs/C12_*.diff).  A connection state is a pair (w, c): w the [world] of its reply context
+          (driven only through [step], the transport answer being computed from c), c : [conn] the
+          rest (id width [cidl], backend [cdg], wait table [ctab], outgoing message, input queues).
+          [mcstep]/[mcrun]/[mcexec] run connection operations [cop] (peer writes a message,
+          dispatch to a handler that replies/defers, dispatch without handler, reply through a
+          deferred handle, await+push, sync, release); [scrun] is the same text over the abstract
+          specification [sworld].  [minit dg idl] is a fresh connection. *)
 From MptV Require Import Base.Mem C12.ReplyModel C12.ReplySpec C12.IdProofs
-  C12.ReplyInv C12.ReplyStep C12.ReplyProps C12.ReplyRefine.
+  C12.ReplyInv C12.ReplyStep C12.ReplyProps C12.ReplyRefine
+  C12.ConnModel C12.ConnSim C12.ConnKeep C12.ConnSpecProps C12.ConnWait C12.ConnReserve C12.ConnProofs.
 Local Open Scope nat_scope.
 
 (* ------------------------------------------------------------------ ids *)
@@ -244,6 +254,142 @@ Proof.
   - eexists. split; [vm_compute; reflexivity|]. reflexivity.
 Qed.
 
+(* ------------------------------------------------------------------ connections (mptio) *)
+
+(* no connection history makes the reply mechanism fault (no access outside val[], no use of a freed
+   context or handle), nor the id encoding of an outgoing request *)
+Theorem C12_conn_no_fault :
+  forall dg idl ops, Forall (fun x => r_fault (fst x) = false) (mcrun (minit dg idl) ops).
+Proof. exact conn_no_fault. Qed.
+
+(* whatever the peer sends, the handlers do and the requester side does: the transport accepted at most
+   one reply per request that was handed to the reply context *)
+Theorem C12_conn_at_most_one_reply :
+  forall dg idl ops, NoDup (map erq (wlog (fst (mcexec (minit dg idl) ops)))).
+Proof. exact conn_at_most_one_reply. Qed.
+
+(* reference count = holders; a context without a reference of the connection has no transport, so a
+   deferred handle that outlives the connection never reaches the freed connection *)
+Theorem C12_conn_refcount :
+  forall dg idl ops,
+  let w := fst (mcexec (minit dg idl) ops) in
+  match wctx w with
+  | Some c => cref c = N.of_nat (wown w + live (whs w)) /\ (wown w = 0 -> csend c = false)
+  | None => wown w = 0 /\ live (whs w) = 0
+  end.
+Proof. exact conn_refcount. Qed.
+
+(* a request dispatched to a handler that does not defer is answered exactly once: see the comment at
+   conn_request_answered_once (ConnProofs.v) *)
+Theorem C12_conn_request_answered_once :
+  forall dg idl ops m acts code,
+  let w := fst (mcexec (minit dg idl) ops) in
+  let c := snd (mcexec (minit dg idl) ops) in
+  wown w = 1 -> cclosed c = false -> (cdg c = true \/ cact c = false) ->
+  0 < cidl c -> cidl c <= length m -> (hd 0 m < 128)%N -> all_zero (firstn (cidl c) m) = false ->
+  forallb is_reply_act acts = true ->
+  let id := firstn (cidl c) m in
+  let p0 := first_reply acts code in
+  exists w',
+    dispatch_request world mstep marmed wstep w c m (Some (acts, code)) =
+      (w', set_req c (wstep w) id, code, Some (true, skipn (cidl c) m),
+       match acts with [] => [] | _ :: rest => HInt (tans c p0) :: map (fun _ => HInt EBadArgument) rest end,
+       [mark id ++ paybytes p0], false) /\
+    marmed w' = false /\ wown w' = 1 /\ wlog w' = wlog w ++ [mkent (wstep w) (mark id) p0].
+Proof. exact conn_request_answered_once. Qed.
+
+(* a reply through a deferred handle, also after the connection is gone, puts nothing on the wire but
+   the id the handle holds, marked as reply, followed by the message *)
+Theorem C12_conn_handle_reply_id :
+  forall dg idl ops k p f,
+  let w := fst (mcexec (minit dg idl) ops) in
+  let c := snd (mcexec (minit dg idl) ops) in
+  In f (r_wire (snd (mcstep (w, c) (CHr k p)))) ->
+  exists id, nth_error (v_hs (mview w)) k = Some (Some id) /\ f = mark id ++ paybytes p.
+Proof. exact conn_handle_reply_id. Qed.
+
+(* requester side: a reply-marked message reaches the handler registered under its id, which is released
+   with it; an id nobody waits for (or an unusable one) reaches no handler *)
+Theorem C12_conn_answer_routing :
+  forall c m e1 e2,
+  let id := unmark (firstn (cidl c) m) in
+  match buf2id id with
+  | Ok (v, _) =>
+    match tfind (ctab c) v with
+    | Some (k, tg) =>
+      dispatch_answer c m e1 e2 = (set_tab c (trelease (ctab c) k), 0%Z, [(tg, Some (skipn (cidl c) m))]) /\
+      nth_error (ctab c) k = Some (mkwe v (Some tg))
+    | None => dispatch_answer c m e1 e2 = (c, e2, []) /\ ~ In v (act_ids (ctab c))
+    end
+  | _ => dispatch_answer c m e1 e2 = (c, e1, [])
+  end.
+Proof. exact dispatch_answer_spec. Qed.
+
+(* ... and with distinct ids in use a second answer with the same id finds nobody *)
+Theorem C12_conn_answered_once :
+  forall tab v k tg, NoDup (act_ids tab) -> tfind tab v = Some (k, tg) ->
+  tfind (trelease tab k) v = None /\ NoDup (act_ids (trelease tab k)).
+Proof. exact answered_once. Qed.
+
+(* mpt_command_reserve (with its compaction loop): the slot handed out carries an id between 1 and the
+   maximum of the header width that no slot in use has; the slots in use stay what they were, in order *)
+Theorem C12_conn_reserve_fresh :
+  forall hasbuf tab idl tag tab' k id,
+  reserve hasbuf tab idl tag = Some (tab', k, id) ->
+  nth_error tab' k = Some (mkwe id (Some tag)) /\
+  act_ids tab' = (if hasbuf then act_ids tab else []) ++ [id] /\
+  (hasbuf = true -> ~ In id (act_ids tab)) /\ (1 <= id <= maxid idl)%N.
+Proof. exact reserve_fresh. Qed.
+
+(* hence: the ids a reachable connection waits for are pairwise distinct (the hypothesis of
+   C12_conn_answered_once holds on every reachable connection) *)
+Theorem C12_conn_wait_ids_distinct :
+  forall dg idl ops, NoDup (act_ids (ctab (snd (mcexec (minit dg idl) ops)))).
+Proof. exact conn_wait_ids_distinct. Qed.
+
+(* the connection over the mechanism refines the connection over the abstract specification:
+   same results, waiter calls, wire messages, connection state and views after every operation *)
+Theorem C12_conn_refines_spec :
+  forall dg idl ops,
+  Forall2 (fun x y => fst x = fst y /\ snd (snd x) = snd (snd y) /\ mview (fst (snd x)) = sview (fst (snd y)))
+          (mcrun (minit dg idl) ops) (scrun (sinit_c dg idl) ops).
+Proof. exact conn_refines_spec. Qed.
+
+(* non-vacuity: a stream connection with two-byte ids; the peer sends request 0001 "AB", the handler defers;
+   request 0002 "CD" is answered by the handler; then the deferred handle answers; an awaited request is
+   sent with id 0001 and its answer reaches waiter 1 *)
+Definition ex_cops : list cop :=
+  [CTx [0; 1; 65; 66]%N; CDp [HDefer] 0; CTx [0; 2; 67; 68]%N; CDp [HReply (Some [111; 107]%N); HReply None] 0;
+   CHr 0 (Some [33]%N); CAw [81]%N; CTx [128; 1; 113]%N; CDp [] 0].
+
+Example C12_ex_conn_wire :
+  map (fun x => r_wire (fst x)) (mcrun (minit false 2) ex_cops)
+  = [[]; []; []; [[128; 2; 111; 107]%N]; [[128; 1; 33]%N]; [[0; 1; 81]%N]; []; []].
+Proof. vm_compute. reflexivity. Qed.
+
+Example C12_ex_conn_waiters :
+  map (fun x => r_wcalls (fst x)) (mcrun (minit false 2) ex_cops)
+  = [[]; []; []; []; []; []; []; [(1, Some [113]%N)]].
+Proof. vm_compute. reflexivity. Qed.
+
+Example C12_ex_conn_log :
+  map erq (wlog (fst (mcexec (minit false 2) ex_cops))) = [2; 0].
+Proof. vm_compute. reflexivity. Qed.
+
+(* the hypotheses of C12_conn_request_answered_once are met by a reachable connection *)
+Example C12_ex_conn_request :
+  let w := fst (mcexec (minit true 2) (firstn 5 ex_cops)) in
+  let c := snd (mcexec (minit true 2) (firstn 5 ex_cops)) in
+  wown w = 1 /\ cclosed c = false /\ cdg c = true /\ cidl c = 2 /\
+  all_zero (firstn (cidl c) [0; 3; 69]%N) = false.
+Proof. vm_compute. repeat split. Qed.
+
+Example C12_ex_conn_routing :
+  let c := snd (mcexec (minit false 2) (firstn 7 ex_cops)) in
+  act_ids (ctab c) = [1%N] /\ tfind (ctab c) 1%N = Some (0, 1).
+Proof. vm_compute. split; reflexivity. Qed.
+
+
 Print Assumptions C12_id_roundtrip.
 Print Assumptions C12_id_accepted_when_fits.
 Print Assumptions C12_id_refused_when_unfit.
@@ -262,3 +408,13 @@ Print Assumptions C12_released_context_default_reply.
 Print Assumptions C12_released_handle_default_reply.
 Print Assumptions C12_arm_preserves_context.
 Print Assumptions C12_history_refines_spec.
+Print Assumptions C12_conn_no_fault.
+Print Assumptions C12_conn_at_most_one_reply.
+Print Assumptions C12_conn_refcount.
+Print Assumptions C12_conn_request_answered_once.
+Print Assumptions C12_conn_handle_reply_id.
+Print Assumptions C12_conn_answer_routing.
+Print Assumptions C12_conn_answered_once.
+Print Assumptions C12_conn_reserve_fresh.
+Print Assumptions C12_conn_wait_ids_distinct.
+Print Assumptions C12_conn_refines_spec.
